@@ -7,6 +7,7 @@ PROPERTY_MODULES = {
     "C10": ["contracts.c10"],
     "C19": ["contracts.c19"],
     "C16": ["contracts.c16"],
+    "C03": ["contracts.c03"],
 }
 
 
